@@ -282,6 +282,7 @@ def register(R):
 
     cps = R.contracts[f'{PPD}.shutdown']
     cps.props, cps.checks, cps.raises = ('C19',), ppd_sd_checks, {'Exception': only_propagates}
+    cps.self_type, cps.old_at = ObjT(PPD, shared=True), 'acquire'      # `_started` as read under `_start_lock`
     cps.modifies = lambda c: [('f', c.self, '_started')]
 
     # ------------------------------------------------------------------ utils.get_callbacks
